@@ -143,6 +143,8 @@ class ScriptPeer:
             pass
         elif letter == 'valid@.5T':
             put(.5 * T, ('data', good))
+        elif letter == 'valid@.6T':
+            put(.6 * T, ('data', good))
         elif letter == 'valid@T-e':
             put(T - e, ('data', good))
         elif letter == 'valid@T+e':
